@@ -109,11 +109,17 @@ func (a *Real64) String() string {
 // Allocate memory for derivatives of n variables.
 func (a *Real64) Alloc(n, order int) {
   if a.N != n || a.Order != order {
+    // a scalar that remains a function of the same n variables keeps its
+    // gradient when only the order changes, so that the receiver of an
+    // operation may be one of its operands
+    keep := a.N == n && a.Order >= 1
     a.N = n
     a.Order = order
     // allocate gradient if requested
     if a.Order >= 1 {
-      a.Derivative = make([]float64, n)
+      if !keep {
+        a.Derivative = make([]float64, n)
+      }
       // allocate Hessian if requested
       if a.Order >= 2 {
         a.Hessian = make([][]float64, n)
@@ -307,6 +313,7 @@ func (a *Real64) SetVariable(i, n, order int) error {
     return fmt.Errorf("order `%d' not supported by this type", order)
   }
   a.Alloc(n, order)
+  a.ResetDerivatives()
   if order > 0 {
     a.Derivative[i] = 1
   }
